@@ -232,6 +232,7 @@ var specs = map[string]*CheckSpec{
 		Assumptions: []string{"*bun.SelectQuery is an abstract ordered table: Where/OrderExpr/Offset/Limit/Scan have their SQL meaning; negative LIMIT/OFFSET is an error", "row ids are distinct (strictly increasing)", "reflect is answered from go/types", "encoding/json and base64 modelled over ropes"},
 		Encoded:     []string{"bunpaginate.UsingColumn", "bunpaginate.UsingOffset", "bunpaginate.(*ColumnPaginatedQuery).EncodeAsCursor", "bunpaginate.(*OffsetPaginatedQuery).EncodeAsCursor", "bunpaginate.EncodeCursor", "bunpaginate.UnmarshalCursor", "bunpaginate.Order.Reverse", "bunpaginate.(*BigInt).MarshalJSON/UnmarshalJSON", "ledgerstore.(*PaginatedQueryOptions).UnmarshalJSON", "query.set/keyValue/not.MarshalJSON", "query.ParseJSON"},
 		Rule:        "per (collection size, page size, order): ids symbolic; the traversal's page boundaries are decided by the solver from the ordering assumptions; per collection size: offset and page size symbolic",
+		MaxPaths: func(tier string) int { return 400000 },
 	},
 	"C02": {
 		ID: "C02", Patterns: []string{cmdPkg}, NeedHelper: true, Instrument: true,
@@ -453,6 +454,7 @@ var specs = map[string]*CheckSpec{
 			return b
 		}, Assumptions: append([]string{"the commander publishes through the real bus.ledgerMonitor into a recording message.Publisher; publish.NewMessage is modelled (payload = JSON model of the real EventMessage; uuid and otel context constant)"}, cmdStubs...), Encoded: append([]string{"bus.(*ledgerMonitor).CommittedTransactions/SavedMetadata/RevertedTransaction/DeletedMetadata/publish", "bus.NewEventCommittedTransactions/NewEventSavedMetadata/NewEventRevertedTransaction/NewEventDeletedMetadata"}, cmdEncoded...),
 		Rule: "per write kind x {real, preview, repeated through an idempotency key}: every published message is decoded from its JSON payload and matched against a persisted log (ids symbolic), every persisted log has an event",
+		MaxPaths: func(tier string) int { return 2000000 },
 	},
 	"C03": {
 		ID: "C03", Patterns: []string{vmPkg}, NeedShapes: true, NeedHelper: true,
